@@ -272,6 +272,80 @@ type Request struct {
 	// Dispose makes Serve release the written response to the cloner after
 	// the handler has returned, as the plain-DNS servers do.
 	Dispose bool
+
+	// Scribble makes Serve overwrite the written response in place after the
+	// handler has returned: a message handed to a response writer belongs to
+	// the writer (the servers truncate it, add OPT records to it and release
+	// its records for reuse).
+	Scribble bool
+}
+
+// DeepCopy is dns.Msg.Copy that also copies the address of an ECS option
+// (the library shares it between the copies).
+func DeepCopy(m *dns.Msg) (c *dns.Msg) {
+	c = m.Copy()
+	for _, rr := range c.Extra {
+		if opt, ok := rr.(*dns.OPT); ok {
+			for _, o := range opt.Option {
+				if e, isECS := o.(*dns.EDNS0_SUBNET); isECS {
+					e.Address = append(net.IP(nil), e.Address...)
+				}
+			}
+		}
+	}
+
+	return c
+}
+
+// Scribble overwrites a message in place, top-level fields and records.
+func Scribble(m *dns.Msg) {
+	if m == nil {
+		return
+	}
+	for _, sec := range [][]dns.RR{m.Answer, m.Ns, m.Extra} {
+		for _, rr := range sec {
+			h := rr.Header()
+			h.Ttl = 12345
+			h.Name = "scribbled.invalid."
+			switch v := rr.(type) {
+			case *dns.A:
+				for i := range v.A {
+					v.A[i] = 0x99
+				}
+			case *dns.AAAA:
+				for i := range v.AAAA {
+					v.AAAA[i] = 0x99
+				}
+			case *dns.TXT:
+				for i := range v.Txt {
+					v.Txt[i] = "scribbled"
+				}
+			case *dns.CNAME:
+				v.Target = "scribbled.invalid."
+			case *dns.SOA:
+				v.Minttl, v.Ns = 54321, "scribbled.invalid."
+			case *dns.OPT:
+				for _, o := range v.Option {
+					if e, ok := o.(*dns.EDNS0_SUBNET); ok {
+						for i := range e.Address {
+							e.Address[i] = 0x99
+						}
+						e.SourceNetmask, e.SourceScope = 1, 1
+					}
+				}
+			}
+		}
+		for i := range sec {
+			sec[i] = nil
+		}
+	}
+	m.Answer, m.Ns, m.Extra = nil, nil, nil
+	m.Truncated = true
+	m.Rcode = dns.RcodeRefused
+	m.Id ^= 0xffff
+	for i := range m.Question {
+		m.Question[i].Name = "scribbled.invalid."
+	}
 }
 
 // Writer records what the stack writes.
@@ -292,7 +366,7 @@ func (w *Writer) RemoteAddr() net.Addr { return w.Remote }
 
 // WriteMsg implements the dnsserver.ResponseWriter interface for *Writer.
 func (w *Writer) WriteMsg(_ context.Context, _, resp *dns.Msg) (err error) {
-	w.Msgs = append(w.Msgs, resp.Copy())
+	w.Msgs = append(w.Msgs, DeepCopy(resp))
 	w.origs = append(w.origs, resp)
 
 	return nil
@@ -342,6 +416,11 @@ func (w *World) Serve(ctx context.Context, r *Request) (out *Writer, err error) 
 	ctx = dnsserver.ContextWithRequestInfo(ctx, info)
 
 	err = h.ServeDNS(ctx, out, r.Msg)
+	if r.Scribble {
+		for _, m := range out.origs {
+			Scribble(m)
+		}
+	}
 	if r.Dispose {
 		for _, m := range out.origs {
 			w.Cloner.Dispose(m)
